@@ -8,7 +8,7 @@ open Scrapli.Loss
   runc ... <ctrl 0|1|2>                  same as run, the Telnet control buffer starting in that state
   run <t> <opened 0|1> <prog> <T> <o,o,...|.> <read default> <write default>
                                          -> <out> <ticks> <calls> <isalive act> <out of a following get_prompt>
-  total <t>                              -> <mapTotalB> <aliveTotalB>
+  total <t>                              -> <mapTotalB> <aliveTotalB> <promptTotalB>
 -/
 
 def pT (s : String) : Option Transport := Transport.all.find? (fun t => toString (repr t) == "Scrapli.Loss.Transport." ++ s)
@@ -66,7 +66,7 @@ partial def handleLine (line : String) : String :=
     | _, _, _ => "bad-op"
   | ["total", t] =>
     match pT t with
-    | some t => toString (mapTotalB t) ++ " " ++ toString (aliveTotalB t)
+    | some t => toString (mapTotalB t) ++ " " ++ toString (aliveTotalB t) ++ " " ++ toString (promptTotalB t)
     | none => "bad-op"
   | ["seq", t, op, s] =>
     match pT t, pSeq s with
